@@ -683,3 +683,28 @@ func deriveList(r *rand.Rand, t *Target, pool []string, src seccomp.ArgumentCond
 	}
 	return d
 }
+
+// WithDataBits gives some groups an action word that carries data in its low 16 bits (ERRNO|EACCES, TRACE|7, ...):
+// every uint32 is a constructible group action, and the compiled filter must return exactly that word. Half of the
+// changed groups get the class of the default action (same action, other data), the others any class. No changed
+// group returns the very word the default action returns. Returns the number of groups changed.
+func WithDataBits(r *rand.Rand, p *seccomp.Policy) int {
+	n := 0
+	for gi := range p.Syscalls {
+		if r.Intn(2) == 0 && gi != len(p.Syscalls)-1 && n > 0 {
+			continue
+		}
+		class := uint32(NamedActions[r.Intn(len(NamedActions))]) &^ 0xffff
+		if r.Intn(2) == 0 {
+			class = uint32(p.DefaultAction) &^ 0xffff
+		}
+		data := []uint32{1, 2, 5, 13, 38, 0x7f, 0xff, 0x100, 0xfff, 0x1000, 0xffff, uint32(r.Intn(0x10000))}[r.Intn(12)]
+		a := seccomp.Action(class | data)
+		if Enc(a) == Enc(p.DefaultAction) {
+			a ^= 2
+		}
+		p.Syscalls[gi].Action = a
+		n++
+	}
+	return n
+}
